@@ -342,6 +342,7 @@ func runC16(w *World, r *Report) {
 	r.Min("R1", 5)
 	r.Min("R2", 8)
 	r.Min("R3", 4)
+	c16ExtraExportPaths(w, r)
 	r.Min("R4", 9)
 }
 
@@ -411,4 +412,85 @@ func rawAllowed(cs []Cond) bool {
 		}
 	}
 	return false
+}
+
+// c16ExtraExportPaths: (a) every body the HAR collector exports went through
+// the obfuscation function it was handed - no exit of buildHARBody returns
+// anything else; (b) the HAR generator takes its obfuscation settings from the
+// configuration of THIS call: it keeps no copy of them on the long-lived
+// plugin object and never writes the plugin's fields on the transaction path.
+func c16ExtraExportPaths(w *World, r *Report) {
+	if bh := w.Fn(pkgHar, "buildHARBody"); bh == nil {
+		r.Undec("R4", "buildHARBody", token.NoPos, "function not found")
+	} else {
+		var fnParam *ssa.Parameter
+		for _, p := range bh.Params {
+			if _, isSig := p.Type().Underlying().(*types.Signature); isSig {
+				fnParam = p
+			}
+		}
+		ok := fnParam != nil
+		n := 0
+		for _, alt := range ReturnAlts(bh, 0) {
+			n++
+			c, isC := peel(alt.Val).(*ssa.Call)
+			if !isC || c.Call.Value != ssa.Value(fnParam) {
+				ok = false
+			}
+		}
+		r.Check(ok && n >= 1, "R4", "buildHARBody/every-exit-is-obfuscated", bh.Pos(), "each of the %d returns of buildHARBody is the result of the obfuscation function (an undecodable body is obfuscated as it is, never exported raw)", n)
+	}
+	gh := w.Fn(pkgDiag, "HARGeneratorPlugin.GenerateHAR")
+	if gh == nil {
+		r.Undec("R4", "HARGeneratorPlugin.GenerateHAR", token.NoPos, "function not found")
+		return
+	}
+	var writes []string
+	for _, name := range []string{"HARGeneratorPlugin.GenerateHAR", "HARGeneratorPlugin.OnTransaction"} {
+		f := w.Fn(pkgDiag, name)
+		if f == nil {
+			continue
+		}
+		for _, g := range Anons(f) {
+			Instrs(g, func(in ssa.Instruction) {
+				if st, ok := in.(*ssa.Store); ok {
+					if fa, ok := st.Addr.(*ssa.FieldAddr); ok {
+						if _, sn := namedOf(fa.X.Type()); sn == "HARGeneratorPlugin" {
+							writes = append(writes, fieldName(fa.X.Type(), fa.Field)+" at "+w.Pos(st.Pos()))
+						}
+					}
+				}
+			})
+		}
+	}
+	nCfg, okCfg := 0, true
+	for _, c := range CallsIn(gh, true, "config.ShouldObfuscate", "config.ShouldObfuscateRequestHeader", "config.ShouldObfuscateResponseHeader", "config.GetObfuscationExclusions") {
+		nCfg++
+		_ = c
+	}
+	Instrs(gh, func(in ssa.Instruction) {
+		c, ok := in.(*ssa.Call)
+		if !ok || !strings.HasPrefix(calleeID(c), "lunar/engine/config.") || len(c.Call.Args) == 0 {
+			return
+		}
+		if !strings.Contains(c.Call.Args[0].Type().String(), "Obfuscate") {
+			return
+		}
+		nCfg++
+		fromCall := Derives(c.Call.Args[0], func(x ssa.Value) bool {
+			return strings.HasSuffix(Path(x), "param:diagnosisConfig.Obfuscate") || Path(x) == "param:diagnosisConfig.Obfuscate"
+		})
+		fromPlugin := Derives(c.Call.Args[0], func(x ssa.Value) bool {
+			fa, isFA := x.(*ssa.FieldAddr)
+			if !isFA {
+				return false
+			}
+			_, sn := namedOf(fa.X.Type())
+			return sn == "HARGeneratorPlugin"
+		})
+		if !fromCall || fromPlugin {
+			okCfg = false
+		}
+	})
+	r.Check(len(writes) == 0 && okCfg && nCfg >= 2, "R4", "GenerateHAR/settings-of-this-call", gh.Pos(), "the obfuscation settings consulted (%d uses) are those of the diagnosis configuration passed to this call, and the plugin object is not written on the transaction path (writes: %v)", nCfg, writes)
 }
